@@ -10,7 +10,9 @@ import (
 	"fmt"
 	"math"
 	"runtime"
+	"strings"
 	"sync"
+	"time"
 
 	tally "github.com/uber-go/tally/v4"
 )
@@ -360,6 +362,16 @@ func init() {
 				break
 			}
 		}
+		// the last report of a closed scope (by a pass, or by asking for the scope again) while another
+		// counter of that scope is being registered (the first-use call sits inside the reporter's
+		// Allocate, holding the scope's counter lock): what was recorded must still be delivered
+		for k := 0; k < 4; k++ {
+			cs := map[string]interface{}{"registration_during_last_report": true, "by_pass": k%2 == 0, "omit_cardinality": k < 2}
+			ctx.Case(cs, "", "registration-overlapping-the-last-report", "")
+			if f := c01RegDuringLastReport(k%2 == 0, k < 2); f != "" {
+				ctx.Fail("deliveries_add_up_to_increments", f, cs, nil)
+			}
+		}
 		// "a report triggered by re-requesting a closed scope": registry cycles (obtain, record, Close,
 		// obtain again) against report passes, with the yield points inside counter.value taking part,
 		// so that the re-request's report and a pass overlap inside one counter; the re-request's report
@@ -403,6 +415,73 @@ func init() {
 			}
 		}
 	}
+}
+
+type c01SlowAlloc struct {
+	*RecCached
+	entered chan struct{}
+	release chan struct{}
+}
+
+func (r *c01SlowAlloc) AllocateCounter(name string, tags map[string]string) tally.CachedCount {
+	if strings.HasSuffix(name, "slow") {
+		close(r.entered)
+		<-r.release
+	}
+	return r.RecCached.AllocateCounter(name, tags)
+}
+
+func c01RegDuringLastReport(byPass, omit bool) string {
+	log := &Log{}
+	rep := &c01SlowAlloc{RecCached: &RecCached{L: log, Caps: caps{true, true}}, entered: make(chan struct{}), release: make(chan struct{})}
+	root, closer := tally.VerifNewRootScope(tally.ScopeOptions{OmitCardinalityMetrics: omit, CachedReporter: rep}, 0, 1)
+	defer closer.Close()
+	tags := map[string]string{"k": "v"}
+	sub := root.Tagged(tags)
+	sub.Counter("hits").Inc(5)
+	var wg sync.WaitGroup
+	wg.Add(1)
+	go func() { defer wg.Done(); sub.Counter("slow").Inc(2) }()
+	<-rep.entered // the registering goroutine holds the scope's counter lock, inside Allocate
+	sub.(interface{ Close() error }).Close()
+	done := make(chan struct{})
+	go func() {
+		if byPass {
+			tally.VerifReportOnce(root)
+		} else {
+			root.Tagged(tags).Counter("hits").Inc(0)
+		}
+		close(done)
+	}()
+	for i := 0; i < 2000; i++ {
+		runtime.Gosched()
+	}
+	time.Sleep(2 * time.Millisecond)
+	close(rep.release)
+	<-done
+	wg.Wait()
+	tally.VerifReportOnce(root)
+	tally.VerifReportOnce(root)
+	var sum int64
+	alloc := map[int64]string{}
+	for _, e := range log.Snapshot() {
+		switch e.K {
+		case 11:
+			alloc[e.I[0]] = e.S[0]
+		case 21:
+			if alloc[e.I[0]] == "hits" {
+				sum += e.I[1]
+			}
+		}
+	}
+	if sum != 5 {
+		how := "a report pass"
+		if !byPass {
+			how = "a request for the same scope"
+		}
+		return fmt.Sprintf("5 was recorded on counter \"hits\" of a subscope; the subscope was closed and %s reported and dropped it while another counter of the subscope was being registered; %d delivered under \"hits\"", how, sum)
+	}
+	return ""
 }
 
 // c01RegGen: one or two application goroutines running (obtain k, record.., Close, obtain k, record..)
